@@ -272,6 +272,23 @@ def rule_T3_traits(ctx, F):
     e = val(fn.expr_local(0))
     want = P.call("Hasher::new_keyed", ("call", name_has("Into<"), (P.arg("key"),)))
     ctx.ob(unify(want, e) is not None, "trait-forward:KeyInit", fn.loc, "returns %s ; required Hasher::new_keyed(key.into())" % show(e))
+    # an override of the provided KeyInit::new_from_slice must keep the exact-length contract: Ok only for a 32-byte slice.  Accepted
+    # evidence: the slice goes through TryFrom/TryInto<[u8; 32]> (exact by construction) or the Ok path is under len == KEY_LEN.
+    for p, f in F.fns.items():
+        if "KeyInit for Hasher>::new_from_slice" in p and f.has_body:
+            conv = [show(c[1]) for c in calls_of(f)]
+            exact = any(("try_from" in c or "try_into" in c or "TryFrom" in c or "TryInto" in c) for c in conv)
+            lenguard = False
+            for b_, gs, e_ in ret_alternatives(f):
+                if e_[0] == "adt" and e_[2] == "Ok":
+                    for c, tr in gs:
+                        sc = show(c) if isinstance(c, tuple) else str(c)
+                        if "len(" in sc and " Eq " in sc and ("32" in sc or "KEY_LEN" in sc) and tr is True:
+                            lenguard = True
+            inexact = [c for c in conv if any(k in c for k in ("first_chunk", "split_first_chunk", "last_chunk", "split_at", "get(", "index("))]
+            ctx.ob(exact or lenguard, "trait-keyinit-from-slice-exact-length", f.loc,
+                   "new_from_slice %s" % ("converts the slice with an exact-length conversion" if exact else "returns Ok only under len == KEY_LEN" if lenguard
+                                          else "accepts a slice without an exact-length test (prefix-taking calls: %s): longer keys would be truncated silently" % [c[:40] for c in inexact]))
     # no trait method resolves to itself
     n = 0
     for p, f in F.fns.items():
